@@ -315,6 +315,10 @@ func runC18(w *World, r *Report) {
 	// R5 shared vacuum rules
 	r.Borrow(w, runC11, map[string]string{"R5": "R5"})
 
+	// single-owner claim of a queued request and read-only flow selection: two places where one
+	// transaction's handling could otherwise complete or rewrite another's state
+	r.Borrow(w, runC06, map[string]string{"R1": "R6"})
+	r.Borrow(w, runC03, map[string]string{"R9": "R6"})
 	r.Min("R1", 60)
 	r.Min("R2", 10)
 	r.Min("R3", 2)
